@@ -25,24 +25,38 @@ def kw_tuple(kw):
     return tuple(sorted((k, repr(v)) for k, v in kw.items()))
 
 
-def make_sequence(rng, mesh, mode, length, well, alpha_scales):
-    """random walk over option values; `well[hop]` says whether the moment
-    matrix may be used with that hop count"""
+def make_sequence(rng, mesh, mode, length, well_fn, alpha_scales, second_order=False):
+    """random walk over option values; `well_fn(kw)` says whether the moment
+    matrix may be used with these options.  On second-order meshes the walk
+    also toggles order1_only and starts with True, False, True (both orders)."""
     kw = dict(mode=mode, n_hop=1, consider_volume=rng.random() < 0.5, use_effective_volume=True,
-              moment_matrix=well[1] and rng.random() < 0.5)
+              moment_matrix=rng.random() < 0.5)
+    if second_order:
+        kw['order1_only'] = True
+        kw['moment_matrix'] = True
+    if kw['moment_matrix'] and not well_fn(kw):
+        kw['moment_matrix'] = False
     seen = []
     steps = []
     for k in range(length):
-        if k > 0:
+        if k > 0 and second_order and k < 3:
+            kw = dict(kw, order1_only=not kw['order1_only'], moment_matrix=True)
+            if not well_fn(kw):
+                kw['moment_matrix'] = False
+        elif k > 0:
             moves = ['moment'] * 4 + ['volume'] * 3 + ['hop'] * 2 + ['kernel'] * 2 + ['revisit'] * 2
             if kw.get('kernel'):
                 moves += ['alpha'] * 4
-            if mode == 'nodal' and kw['consider_volume']:
+            if mode == 'nodal' and kw['consider_volume'] and not second_order:
                 moves += ['effective'] * 2
+            if second_order:
+                moves += ['order1'] * 5
             mv = rng.choice(moves)
             kw = dict(kw)
             if mv == 'moment':
                 kw['moment_matrix'] = not kw['moment_matrix']
+            elif mv == 'order1':
+                kw['order1_only'] = not kw['order1_only']
             elif mv == 'volume':
                 kw['consider_volume'] = not kw['consider_volume']
             elif mv == 'effective':
@@ -68,7 +82,7 @@ def make_sequence(rng, mesh, mode, length, well, alpha_scales):
                 kw['alpha'] = f * base
             elif mv == 'revisit' and seen:
                 kw = dict(rng.choice(seen))
-            if kw['moment_matrix'] and not well[kw['n_hop']]:
+            if kw['moment_matrix'] and not well_fn(kw):
                 kw['moment_matrix'] = False
         seen.append(dict(kw))
         kind = 'conv' if (k == 0 or rng.random() < 0.8) else 'matrices'
@@ -82,12 +96,11 @@ def make_sequence(rng, mesh, mode, length, well, alpha_scales):
     return steps
 
 
-def attach_data(rng, steps, P):
-    """column 0 = the affine field g.x + c at the vertex positions, column 1 = random integers"""
-    for st in steps:
-        if st['kind'] == 'conv' and 'data' not in st:
-            st['data'] = [[sum(Fr(gg) * p for gg, p in zip(st['g'], P[j])) + st['c'],
-                           Fr(rng.randint(-9, 9))] for j in range(len(P))]
+def attach_data(rng, st, P_all):
+    """column 0 = the affine field g.x + c at the positions of ALL vertices the
+    convenience function expects data for, column 1 = random integers"""
+    st['data'] = [[sum(Fr(gg) * p for gg, p in zip(st['g'], P_all[j])) + st['c'],
+                   Fr(rng.randint(-9, 9))] for j in range(len(P_all))]
 
 
 def json_steps(steps):
@@ -124,7 +137,7 @@ def check_step(st, out, ref, P, well_step, rows_from_coo, fr_hex):
                                                       'fresh_object': float(d1.get(j, 0)),
                                                       'same_object': float(d2.get(j, 0))})]
         return bad
-    data = st['data']
+    data = st.get('data_eff', st['data'])
     nfeat = len(data[0])
     if out['shape'] != [n, 3, nfeat]:
         return [('convenience-history', {'shape': out['shape'], 'expected_shape': [n, 3, nfeat]})]
